@@ -30,9 +30,14 @@ func p(x, y, z float64) model3d.Coord3D { return model3d.XYZ(x, y, z) }
 // orient flips faces so that the closed surface has positive volume, given a
 // consistently oriented input.
 func fixSign(ts [][3]model3d.Coord3D) [][3]model3d.Coord3D {
+	// signed volume about the first vertex, not about the origin: far from the origin the terms of the absolute
+	// formula are of the order of the cube of the offset and their sum has no correct digit left
 	var vol float64
-	for _, t := range ts {
-		vol += t[0].Dot(t[1].Cross(t[2]))
+	if len(ts) > 0 {
+		o := ts[0][0]
+		for _, t := range ts {
+			vol += t[0].Sub(o).Dot(t[1].Sub(o).Cross(t[2].Sub(o)))
+		}
 	}
 	if vol < 0 {
 		for i, t := range ts {
